@@ -27,6 +27,7 @@ type generator struct {
 var gens = []generator{
 	{file: "Nucleotide.lean", src: "nucleotide.go", run: genNucleotide},
 	{file: "Arith.lean", src: "utils.go, location.go, seqio/origin.go, seqio/date.go", run: genArith},
+	{file: "Cli.lean", src: "cmd/gts/*.go", run: genCli},
 }
 
 func writeIfChanged(path string, content []byte) (bool, error) {
